@@ -96,9 +96,7 @@ def finish(res, level="model_checking"):
     openf = open_findings(res.prop)
     rc = 0
     for fid, k in sorted(res.known.items()):
-        if fid == "C03-driver" and openf:
-            print("KNOWN-FINDING: property=C03 %d recorded driver events are refused/vetoed calls that change the forest exactly as the as-built model with the listed deviations (%s) predicts" % (k["count"], ", ".join(sorted(openf))))
-        elif fid in openf:
+        if fid in openf:
             print("KNOWN-FINDING: property=%s %s: %s (%d occurrences; witness: %s)" % (
                 res.prop, fid, openf[fid]["what"], k["count"], json.dumps(k["witness"], sort_keys=True, default=str)[:600]))
         else:
